@@ -16,7 +16,9 @@ RULE = ("crash-point enumeration: for each (spec, controller, penalty policy, Ne
         "distinct = (combo, stop kind, stop position)")
 ASSUMPTIONS = ["the virtual clock replaces time.time in pygradflow.timer (the only clock the solver reads)",
                "horizon 40 iterations for R (a run that reaches the horizon is itself stopped by the limit and still serves as reference)"]
-CASE_ALARM_S = 300
+CASE_ALARM_S = 200
+CASES_ALARM_S = 240
+TIMEOUT_IS_VIOLATION = "a solve with an iteration limit / deadline did not return"
 HOR = 40
 
 
